@@ -76,11 +76,22 @@ func verifJSONMarshal14(v interface{}) ([]byte, error) {
 		}
 	case *messages.ClientPollResponse:
 		verifJSONLast = *x
+		if verifSymbolicResponse {
+			// the encoded response: JSON text with arbitrary bytes inside (an SDP answer may
+			// contain any character, '%' included)
+			verifLastEncoded = []byte("{\"answer\":\"" + verifapi.String("json.response", 2) + "\"}")
+			return verifLastEncoded, nil
+		}
 	default:
 		verifJSONLast = v
 	}
 	return verifJSONBytes, nil
 }
+
+var (
+	verifSymbolicResponse bool
+	verifLastEncoded      []byte
+)
 func verifJSONUnmarshal14(data []byte, v interface{}) error {
 	switch t := v.(type) {
 	case *messages.ClientPollRequest:
@@ -185,9 +196,14 @@ func VerifC14_Endpoints() {
 	verifJSONLast = messages.ClientPollRequest{Offer: "offer", NAT: "unknown", Fingerprint: verifFP1}
 	verifBodyBytes = append([]byte("1.0\n"), verifJSONBytes...)
 	w2 := &verifRecorder{hdr: http.Header{}}
+	verifSymbolicResponse = !verifapi.Native()
 	SnowflakeHandler{i, clientOffers}.ServeHTTP(w2, verifRequest("POST", "/client"))
+	verifSymbolicResponse = false
 	verifapi.Cover("follow-up answered")
 	verifapi.Assert(w2.status == 200, "a later well-formed client poll is still answered")
+	if !verifapi.Native() {
+		verifapi.Assert(string(w2.body) == string(verifLastEncoded), "the body sent to the client is exactly the encoded response, whatever bytes it contains")
+	}
 	resp, ok := verifJSONLast.(messages.ClientPollResponse)
 	verifapi.Assert(ok && resp.Error == messages.StrNoProxies, "the follow-up client is told there are no proxies")
 }
